@@ -50,7 +50,7 @@ struct Engine {
         auto& t = *m.teakra;
         const u16 b = (u16)(0x20 + 0x10 * idx);
         Machine::LoadTimer(m.impl->timer[idx], ToSnap(s));
-        m.impl->icu.request.reset();
+        m.impl->icu.Acknowledge(0xFFFF);
         TS model = s;
         int model_irq = 0;
         try {
@@ -79,7 +79,7 @@ struct Engine {
             return s;
         }
         TS got = FromSnap(Machine::SaveTimer(m.impl->timer[idx]));
-        int irq = (int)m.impl->icu.request.test(idx == 0 ? 10 : 9);
+        int irq = (int)((m.impl->icu.GetRequest() >> (idx == 0 ? 10 : 9)) & 1);
         ++res.transitions, ++res.traces_validated, ++res.evaluations;
         std::string bad;
         if (!(got == model))
